@@ -71,6 +71,7 @@ def run(ck: Check):
     if have_render():
         renderlib = importlib.import_module("renderlib")
         renderlib.render_streams(ck, ck.tier)
+        renderlib.render_mem_oracle(ck)
         if ck.is_broken():
             renderlib.render_search(ck)
             return ck.finish()
